@@ -33,6 +33,8 @@ pub enum Op {
     Overwrite(usize, Vec<u8>),
     Insert(usize, Vec<u8>),
     Crlf,
+    /// token / line level edits (seeded): delete, duplicate, swap, replace by a grammar token
+    Token { seed: u64, kind: u8 },
 }
 
 impl Op {
@@ -47,6 +49,15 @@ impl Op {
             Op::Overwrite(..) => "overwrite",
             Op::Insert(..) => "insert_bytes",
             Op::Crlf => "crlf",
+            Op::Token { kind, .. } => match kind {
+                0 => "token_delete",
+                1 => "token_duplicate",
+                2 => "token_swap",
+                3 => "token_replace",
+                4 => "line_swap",
+                5 => "line_duplicate",
+                _ => "line_delete",
+            },
         }
     }
 }
@@ -77,7 +88,8 @@ const INSERTS: &[&[u8]] = &[
 
 fn gen_op(r: &mut Rng, len: usize, others: &[(String, usize)]) -> Op {
     let pos = |r: &mut Rng| if len == 0 { 0 } else { r.usize(len + 1) };
-    match r.below(12) {
+    match r.below(16) {
+        12..=15 => Op::Token { seed: r.next(), kind: r.below(7) as u8 },
         0 | 1 => Op::Truncate(pos(r)),
         2 => Op::ZeroTail(pos(r)),
         3 => {
@@ -152,6 +164,70 @@ fn apply(op: &Op, b: &mut Vec<u8>, lookup: &dyn Fn(&str) -> Vec<u8>) {
             let a = (*a).min(b.len());
             b.splice(a..a, bytes.clone());
         }
+        Op::Token { seed, kind } => {
+            const DICT: &[&str] = &[
+                "{", "}", "[", "]", "(", ")", "or", "OR", "|OR|", "when", "WHEN", "rule", "let", "not", "!", "some", "SOME", "this", "keys", "==", "!=", ">=", "<=", ">", "<", "in", "IN", "exists", "empty",
+                "!exists", "!empty", "is_string", "is_list", "is_struct", "<<", ">>", "<<msg>>", "%", "%v1", "*", ".*", "[*]", "[0]", "[-1]", "r[1,", "r(", "/re/", "/(/", "'", "\"", "#", ":=", "=", ",", ":", "null", "true",
+                "99999999999999999999", "-9223372036854775808", "1e999", "1.", ".5", "0x10", "count(", "now()", "join(", "parse_int(", "AWS::S3::Bucket", "AWS::", "::", "a.b.c.d.e.f.g.h", "[ a == 1 ]", "[ keys == /a/ ]", "[ k | a exists ]",
+            ];
+            let mut r = Rng::new(*seed);
+            if *kind <= 3 {
+                // split into runs of whitespace / non-whitespace, keeping everything
+                let mut toks: Vec<Vec<u8>> = Vec::new();
+                let mut cur: Vec<u8> = Vec::new();
+                let mut cur_ws = false;
+                for x in b.iter() {
+                    let ws = x.is_ascii_whitespace();
+                    if !cur.is_empty() && ws != cur_ws {
+                        toks.push(std::mem::take(&mut cur));
+                    }
+                    cur_ws = ws;
+                    cur.push(*x);
+                }
+                if !cur.is_empty() {
+                    toks.push(cur);
+                }
+                let words: Vec<usize> = (0..toks.len()).filter(|i| !toks[*i][0].is_ascii_whitespace()).collect();
+                if !words.is_empty() {
+                    let i = words[r.usize(words.len())];
+                    match kind {
+                        0 => {
+                            toks.remove(i);
+                        }
+                        1 => {
+                            let t = toks[i].clone();
+                            toks.insert(i, b" ".to_vec());
+                            toks.insert(i, t);
+                        }
+                        2 => {
+                            let j = words[r.usize(words.len())];
+                            toks.swap(i, j);
+                        }
+                        _ => toks[i] = r.pick(DICT).as_bytes().to_vec(),
+                    }
+                    *b = toks.concat();
+                }
+            } else {
+                let mut lines: Vec<Vec<u8>> = b.split_inclusive(|x| *x == b'\n').map(|l| l.to_vec()).collect();
+                if lines.len() > 1 {
+                    let i = r.usize(lines.len());
+                    match kind {
+                        4 => {
+                            let j = r.usize(lines.len());
+                            lines.swap(i, j);
+                        }
+                        5 => {
+                            let l = lines[i].clone();
+                            lines.insert(i, l);
+                        }
+                        _ => {
+                            lines.remove(i);
+                        }
+                    }
+                    *b = lines.concat();
+                }
+            }
+        }
         Op::Crlf => {
             let mut out = Vec::with_capacity(b.len() + 16);
             for x in b.iter() {
@@ -206,6 +282,10 @@ fn classify_step(st: &StepT, s: &StepOut, rule_files: &[(String, Vec<String>, us
             // diagnostic error: fine, but it must be a message, not empty
             if s.res.err.trim().is_empty() {
                 out.push(Finding { sig: format!("empty-error:{}", st.class), what: format!("`{}` failed with an empty error message", st.class) });
+            }
+            // a rules-file parse error names a line and a column
+            if s.res.err.contains("Parsing Error") && !(s.res.err.contains("at line ") && s.res.err.contains("at column ")) {
+                out.push(Finding { sig: "parse-diagnostic:no-position".into(), what: format!("`{}`: parse error without line/column: {}", st.class, s.res.err.chars().take(160).collect::<String>()) });
             }
         }
         _ => {}
